@@ -74,7 +74,10 @@ def run(ctx):
         shapes += extra[:1500]
     for outer in shapes:
         route = ctx.rng.choice(['parse', 'parse', 'enforce', 'load'])
-        cases.append(pc.record_list(outer, pc.list_value(outer, ctx.rng), route, 'c01'))
+        val = pc.list_value(outer, ctx.rng)
+        if route in ('parse', 'enforce') and ctx.rng.random() < 0.3:
+            val = pc.tuplify(val, ctx.rng)
+        cases.append(pc.record_list(outer, val, route, 'c01'))
     bad = pc.judge(ctx, cases)
     for c in bad:
         ctx.violation(key_of(c), 'decision of the real parser/evaluator differs from the documented grammar',
